@@ -12,6 +12,8 @@ claimed = {
          "§5 C08"),
  "C09": ("SX", "Exhaustive exploration (deviation bound 1 quick / 2 thorough, happens-before state cache) of the real hedge executor and its attempt threads over every assignment of durations {0, D, 3D, until cancelled} (thorough adds D-1, D+1) and outcomes to the attempts for maxHedges 1 and 2, four cancel-condition configurations, and placements inside retry/timeout/fallback; the hedge layer contract (attempt count, spacing, acceptance instant, winner/loser cancellation sampled at the moment of return, Hedges/Attempts) is evaluated on the probe log of every schedule.",
          "§5 C09"),
+ "C03": ("BX", "Explicit-state BFS (depth 6 quick / 9 thorough) over operation histories of the real breaker for 61 (quick) / 116 (thorough) configurations: count, ratio, period-count and period-rate failure thresholds x success thresholds/ratios, fixed delay and delay function, handle conditions; operations: records, permit requests, executions, manual transitions, clock advances to 1 tick, slice-1, slice, period, delay-1 and exactly the delay. Every transition is compared with a reference model written from the documentation (state, admission, metrics, remaining delay, events with old-state metrics); states merged only on exact dumps.",
+         "§5 C03"),
 }
 na = {}
 props = [json.loads(l) for l in open('/verif/properties.jsonl')]
